@@ -103,6 +103,15 @@ package rules
 //	R-C09-3 resolves reload, R-C09-4 the MQTT acquire method and R-C09-6 the policy comparison
 //	by role. Mutants re-applied on top of the r3 and r4 shapes are still reported (12 tried).
 //
+// Robustness pass, second set (/verif/preserving/C09/r5..r8, all exit 0 now): canon follows
+// results of multi-valued helpers (`u, req := rl.matchURL(ctx)`), result variables fed from one
+// source (`var prev *T; … prev = cand; break`) and roots that stand for a path (`spec := rl.spec`);
+// R-C09-5 follows the policy into a helper that builds it; R-C09-7 is about scalars (append into
+// a slice keeps the dimensions apart); the guarded fields of the limiters and the filter's fields
+// are resolved by type and usage (renamed cycle/tokens/rl); R-C09-4 finds the charge sites in
+// methods or closures and decides the dispatch through a func-typed field of Limiter.
+// 17 mutants re-applied on top of the r6, r7 and r8 shapes are all reported.
+//
 // Not caught by design (arithmetic, see NotDecided): `tokens > maxTokens`, a wrong wait
 // computation, a dropped `rl.cycle = cycle` on the permit path, a wrong refresh period in the MQTT policies.
 //
@@ -323,6 +332,132 @@ func c09singleDef(f *flow.Func, o types.Object) ast.Expr {
 		return nil
 	}
 	return rhs
+}
+
+// c09tupleDef: the local is defined exactly once by a multi-valued call `a, b := h(..)`;
+// returns the call and the position of the variable among the results.
+func c09tupleDef(f *flow.Func, o types.Object) (*ast.CallExpr, int) {
+	obj, ok := o.(*types.Var)
+	if !ok || obj.IsField() || obj.Pkg() == nil || obj.Parent() == obj.Pkg().Scope() {
+		return nil, -1
+	}
+	var call *ast.CallExpr
+	idx, n := -1, 0
+	isObj := func(x ast.Expr) bool {
+		xid, ok := ast.Unparen(x).(*ast.Ident)
+		return ok && c09obj(f, xid) == obj
+	}
+	ast.Inspect(f.Body, func(x ast.Node) bool {
+		switch s := x.(type) {
+		case *ast.AssignStmt:
+			for i, l := range s.Lhs {
+				if isObj(l) {
+					n++
+					if len(s.Rhs) == 1 && len(s.Lhs) > 1 {
+						if c, ok := ast.Unparen(s.Rhs[0]).(*ast.CallExpr); ok {
+							call, idx = c, i
+						}
+					}
+				}
+			}
+		case *ast.ValueSpec:
+			for _, nm := range s.Names {
+				if c09obj(f, nm) == obj {
+					n += 2
+				}
+			}
+		case *ast.IncDecStmt:
+			if isObj(s.X) {
+				n += 2
+			}
+		case *ast.RangeStmt:
+			if (s.Key != nil && isObj(s.Key)) || (s.Value != nil && isObj(s.Value)) {
+				n += 2
+			}
+		case *ast.UnaryExpr:
+			if s.Op == token.AND && isObj(s.X) {
+				n += 2
+			}
+		}
+		return true
+	})
+	if n != 1 || call == nil {
+		return nil, -1
+	}
+	return call, idx
+}
+
+// c09soleSource: every assignment to the local is nil / a zero-value declaration or one and the
+// same other variable (`var found *T; for .. { found = cand; break }`): whenever the local is
+// non-nil it holds that variable's value. Returns that variable.
+func c09soleSource(f *flow.Func, o types.Object) types.Object {
+	obj, ok := o.(*types.Var)
+	if !ok || obj.IsField() || obj.Pkg() == nil || obj.Parent() == obj.Pkg().Scope() {
+		return nil
+	}
+	var src types.Object
+	bad := false
+	isObj := func(x ast.Expr) bool {
+		xid, ok := ast.Unparen(x).(*ast.Ident)
+		return ok && c09obj(f, xid) == obj
+	}
+	from := func(r ast.Expr) {
+		if tv, ok := f.Info.Types[r]; ok && tv.IsNil() {
+			return
+		}
+		id, ok := ast.Unparen(r).(*ast.Ident)
+		if !ok {
+			bad = true
+			return
+		}
+		so, isVar := c09obj(f, id).(*types.Var)
+		if !isVar || (src != nil && src != so) {
+			bad = true
+			return
+		}
+		src = so
+	}
+	ast.Inspect(f.Body, func(x ast.Node) bool {
+		switch s := x.(type) {
+		case *ast.AssignStmt:
+			for i, l := range s.Lhs {
+				if isObj(l) {
+					if len(s.Lhs) == len(s.Rhs) && (s.Tok == token.ASSIGN || s.Tok == token.DEFINE) {
+						from(s.Rhs[i])
+					} else {
+						bad = true
+					}
+				}
+			}
+		case *ast.ValueSpec:
+			for i, nm := range s.Names {
+				if c09obj(f, nm) == obj && len(s.Values) > 0 {
+					if i < len(s.Values) && len(s.Values) == len(s.Names) {
+						from(s.Values[i])
+					} else {
+						bad = true
+					}
+				}
+			}
+		case *ast.IncDecStmt:
+			if isObj(s.X) {
+				bad = true
+			}
+		case *ast.RangeStmt:
+			if (s.Key != nil && isObj(s.Key)) || (s.Value != nil && isObj(s.Value)) {
+				bad = true
+			}
+		case *ast.UnaryExpr:
+			if s.Op == token.AND && isObj(s.X) {
+				bad = true
+			}
+		}
+		return true
+	})
+	if bad {
+		return nil
+	}
+	return src
 }
 
 // c09mentions reports whether expression e mentions one of the objects.
